@@ -122,7 +122,7 @@ def load_known():
 RUNTIME_ENV = {
     "ASAN_OPTIONS": "abort_on_error=1:detect_leaks=0:allocator_may_return_null=1:handle_abort=0:"
                     "detect_stack_use_after_return=0:print_summary=1:malloc_context_size=8",
-    "UBSAN_OPTIONS": "print_stacktrace=1:halt_on_error=1",
+    "UBSAN_OPTIONS": "print_stacktrace=1:halt_on_error=1:abort_on_error=1",
     "TSAN_OPTIONS": "halt_on_error=0:second_deadlock_stack=1:report_signal_unsafe=0",
 }
 
@@ -179,8 +179,9 @@ def run_part(exe, prop, tier, seed, part, nparts, mode, workdir, timeout, wrappe
         for p in (logp, errp):
             if os.path.exists(p):
                 os.remove(p)
+        statp = logp[:-4] + ".status"
         cmd = [exe, prop, "--tier", tier, "--seed", str(seed), "--part", f"{part}/{nparts}", "--log", logp,
-               "--skip", str(skip)]
+               "--skip", str(skip), "--status", statp]
         if mode:
             cmd += ["--mode", mode]
         if wrapper:
@@ -214,6 +215,11 @@ def run_part(exe, prop, tier, seed, part, nparts, mode, workdir, timeout, wrappe
                 elif f[0] == "HFAIL":
                     res.inconclusive.append(f"harness failure in part {part}: {f[1:]}")
         errtxt = open(errp, errors="replace").read() if os.path.exists(errp) else ""
+        if crash is None and not last_done and os.path.exists(statp):
+            # no CRASH record (death without a signal handler running): fall back to the status mapping
+            st = open(statp, "rb").read().split(b"\0")[0].decode(errors="replace").strip().split("\t")
+            if len(st) >= 3 and st[0].lstrip("-").isdigit():
+                crash = (int(st[0]), st[1], st[2], f"exit:{rc}")
         if "ThreadSanitizer" in errtxt:
             res.tsan_reports.append(errtxt)
         if rc == 0 and last_done:
